@@ -44,7 +44,8 @@ Subjects == {<<97, 98, 97>>, <<120, 97, 98, 120>>, <<97, 98, 97, 98>>, <<>>, <<9
 TUnits == {<<36>>, <<48>>, <<49>>, <<50>>, <<120>>}
 Templates == UNION {[1..n -> TUnits] : n \in 0..MaxT}
 Tpl(t) == SeqConcatAll(t)
-ExtraTemplates == {<<36, 49, 50>>, <<36, 49, 51>>, <<36, 49, 48>>, <<36, 57>>, <<36, 49, 50, 51>>, <<36, 48, 49>>, <<36, 36, 49>>, <<120, 36>>, <<36, 233>>}
+ExtraTemplates == {<<36>> \o [i \in 1..20 |-> 57], <<36, 49>> \o [i \in 1..19 |-> 48] \o <<120>>, <<36, 49, 50, 36, 50, 49, 36, 51, 36>> \o [i \in 1..20 |-> 57],     \* $9999…  $1000…x
+                   <<36, 49, 50>>, <<36, 49, 51>>, <<36, 49, 48>>, <<36, 57>>, <<36, 49, 50, 51>>, <<36, 48, 49>>, <<36, 36, 49>>, <<120, 36>>, <<36, 233>>}
 
 Limits == {IntV(0), IntV(1), IntV(2), IntV(4), IntV(0 - 1), Num(3, 2)}
 
